@@ -1741,7 +1741,30 @@ func scannerLoopExitsOnEOF(f *ssa.Function, h *ssa.BasicBlock, tok *ssa.Phi) boo
 				return false
 			}
 			seen[x] = true
-			for _, sc := range x.Succs {
+			succs := x.Succs
+			// on this walk the token is EOF: a further comparison of it with a constant has one possible outcome
+			if iff2, ok := x.Instrs[len(x.Instrs)-1].(*ssa.If); ok && len(x.Succs) == 2 {
+				if c2, ok := iff2.Cond.(*ssa.BinOp); ok && (c2.Op == token.EQL || c2.Op == token.NEQ) {
+					var o2 ssa.Value
+					switch {
+					case stripConv(c2.X) == ssa.Value(tok):
+						o2 = c2.Y
+					case stripConv(c2.Y) == ssa.Value(tok):
+						o2 = c2.X
+					}
+					if o2 != nil {
+						if n2, isC := constInt(o2); isC {
+							holds := (n2 == -1) == (c2.Op == token.EQL)
+							if holds {
+								succs = x.Succs[:1]
+							} else {
+								succs = x.Succs[1:]
+							}
+						}
+					}
+				}
+			}
+			for _, sc := range succs {
 				if reach(sc) {
 					return true
 				}
